@@ -4,7 +4,6 @@ from __future__ import annotations
 from packaging.version import Version
 
 from htmltools import HTMLDependency, Tag, TagList
-from htmltools._core import _resolve_dependencies
 
 from engine.api import harness, pick
 
@@ -69,7 +68,7 @@ def _pre_res(B, n0, n1, n2, n3, a0, a1, a2, a3, b0, b1, b2, b3, t0, t1, t2, t3):
          shard=lambda B: [{"n1": x, "n2": y, "t0": t, "t1": u} for x in range(3) for y in range(3) for t in range(2) for u in range(2)],
          sym=["a0..a3: second version component, int in [0, A] (A=120 puts 9/10 and 99/100 inside the bound)", "b0..b3: third component in {0,1}"],
          sel=["n1..n3: names from 3", "t0..t3: two- or three-component version", "N dependencies"],
-         targets=["htmltools._core._resolve_dependencies", "htmltools._core.TagList.get_dependencies"],
+         targets=["htmltools._core.TagList.get_dependencies"],
          timeout={"quick": 200, "thorough": 2400},
          outside="more than N dependencies, versions outside 1.a[.b] (pre-releases, epochs), second component above A")
 def h_resolve(n0: int, n1: int, n2: int, n3: int, a0: int, a1: int, a2: int, a3: int,
@@ -91,7 +90,7 @@ def h_resolve(n0: int, n1: int, n2: int, n3: int, a0: int, a1: int, a2: int, a3:
     if not _same(got, want):
         return False
     # idempotent; dedup=False keeps everything in order
-    if not _same(_resolve_dependencies(got), want):
+    if not _same(TagList(*got).get_dependencies(), want):      # resolving the resolved list changes nothing
         return False
     return _same(TagList(*deps).get_dependencies(dedup=False), deps)
 
